@@ -106,12 +106,12 @@ def run(tier, only=None):
     if only:
         hists, pool = [only[0]], [only[1], only[2]]
     else:
-        cases, rr = progs.generate(96 if tier == "quick" else 600, seed=vlib.seed() + 4000, cfg="MIRProg_exec.cfg")
+        cases, rr = progs.generate(480 if tier == "quick" else 1600, seed=vlib.seed() + 4000, cfg="MIRProg_exec.cfg")
         pool = [c for c in cases if c["status"] == "done"]
     if len(pool) < 2:
         raise MachineryError("program pool too small")
     exe = mirlib.build_runner("plain")
-    reps = 1 if tier == "quick" else 8
+    reps = 3 if tier == "quick" else 12
     jobs = []
     n = 0
     for rep in range(reps):
